@@ -17,7 +17,8 @@ CLAIMS = {
          "attempts left (C02_save_iff; retryable statuses are exactly 408/429/500/503, Status.v, swept over every status code "
          "through the real HTTP client); a metric tag occurs in at most 6 requests, an event tag in at most 11 when deliveries do "
          "not overlap (both provisos shown necessary by refutation witnesses); monitors for re-sending of dead data and the "
-         "1+5 / 1+10 attempt bounds on long failure scripts, incl. split payloads of >= 5000 events, against the real processor.",
+         "1+5 / 1+10 attempt bounds on long failure scripts, incl. split payloads of >= 5000 events and bursts of failures "
+         "answered at once while the processor is busy, against the real processor.",
          "§4 C02", PROC_NOTE, "Coq proof (invariants over histories) + differential correspondence + monitors"),
  "C03": ("Coq theorems on the processor model (RunIDValid iff the run is held; the state reported is the state held) plus "
          "lifecycle monitors (terminal verdicts, sound 'connected', retry after back-off, restart after 401/409) evaluated on the "
